@@ -336,6 +336,15 @@ void MasterMS<Scalar>::init_mms(const std::string& my_name,
         }
       if (name == mapped_name)
         {
+          // release the candidates that have not been examined yet
+          for (unsigned int j=i+1; j != anim.size(); ++j)
+            delete anim[j];
+
+          // a re-used handle replaces (and releases) its previous instance
+          typename std::map<std::string, manufactured_solution<Scalar> *>::iterator it=_master_map.find(my_name);
+          if (it != _master_map.end())
+            delete it->second;
+
           _master_map[my_name] = _master_pointer = anim[i];
           return;
         }
